@@ -248,22 +248,24 @@ Definition call_effect (src this k : Z) : list Z :=
   [if r =? 1 then k else 0; if r =? 2 then k else 0; if r =? 0 then k else 0].
 
 (* script object graphs (objects may refer to each other, also in cycles) and Value.export on them:
-   the recursion of export follows every reference; [None] = the fuel did not suffice *)
+   export remembers the objects it is inside of and gives nil for a reference back to one of them;
+   [None] = the fuel did not suffice *)
 Inductive hval := HNum (n : Z) | HRef (i : nat).
 Definition heap := list (list (list Z * hval)).
-Inductive gtree := GLeaf (n : Z) | GNode (l : list (list Z * gtree)).
-Fixpoint gexport (fuel : nat) (h : heap) (v : hval) : option gtree :=
+Inductive gtree := GLeaf (n : Z) | GBack | GNode (l : list (list Z * gtree)).
+Fixpoint gexport (fuel : nat) (inside : list nat) (h : heap) (v : hval) : option gtree :=
   match fuel with
   | O => None
   | S f =>
       match v with
       | HNum n => Some (GLeaf n)
       | HRef i =>
-          option_map GNode
+          if existsb (Nat.eqb i) inside then Some GBack
+          else option_map GNode
             ((fix go (l : list (list Z * hval)) : option (list (list Z * gtree)) :=
                 match l with
                 | [] => Some []
-                | (k, x) :: r => match gexport f h x, go r with
+                | (k, x) :: r => match gexport f (i :: inside) h x, go r with
                                  | Some y, Some ys => Some ((k, y) :: ys)
                                  | _, _ => None
                                  end
@@ -323,8 +325,9 @@ Inductive case :=
 (* api 0 Otto.Call(src, this, args...), 1 Value.Call(this, args...) on the function the source evaluates to;
    obs: what the callee saw (this tag, args); eff: [holder.n; deep.a.n; global n] after the callee added k to this.n *)
 | CCallThis (api src this k : Z) (args : list gscalar) (obs_api obs_lang : ob (list (list Z))) (eff_api eff_lang : list Z)
-(* Export of a cyclic object graph, run in a child process: 0 = returned, 1 = the process died (fatal stack overflow) *)
-| CCyclic (shape : Z) (obs : Z)
+(* Export of a cyclic object graph, run in a child process (OPanic = the process died: a fatal stack overflow
+   cannot be recovered); unrolled: the same data with every reference back into the path replaced by null *)
+| CCyclic (shape : Z) (unrolled : jv) (obs : ob gv)
 (* a sequence of calls made through the Go API against the same sequence made in-language *)
 | CCallSeq (steps : list cstep) (obs_api obs_lang : list (ob (list (list Z))))
 (* histories of writes and reads of bindings: store 0 = global names (Otto.Set/Get), 1 = properties of a
@@ -499,9 +502,7 @@ Definition verdict (c : case) : Z * Z :=
                ob_eqb zll_eqb (fst (fst a)) (fst (fst b)) && ob_eqb zll_eqb (snd (fst a)) (snd (fst b)) &&
                zlist_eqb (fst (snd a)) (fst (snd b)) && zlist_eqb (snd (snd a)) (snd (snd b)))
             (oa, ol, (ea, el)) (exp, exp, (eff, eff)) (exp, exp, (eff, eff)) 0
-  (* class 8: Export follows references without remembering where it has been: on a cycle it never
-     returns (the Go stack overflows, which cannot be recovered) *)
-  | CCyclic _ obs => judge Z.eqb obs 1 0 8
+  | CCyclic _ unrolled obs => verdict_tree unrolled obs
   | CProtoObj _ own exp keys js =>
       let m := of_res (export_m (JObj own)) in
       let k := OVal (map fst own) in
